@@ -1,6 +1,7 @@
 import Gossamer.Base.Proto
 import Gossamer.Model.C20
 import Gossamer.Lib.C20Spec
+import Gossamer.Lib.C20Bitfield
 open Gossamer Gossamer.C20
 
 /- line:   `t=<parents,> w=<weights,> h=<names> b=<baseNumber>|<op>;<op>;…`
@@ -92,6 +93,27 @@ def runCase (t : Tree) (ws : List Nat) (cmds : List Cmd) : String :=
     | some k => if k == "none" then s!"{m}\tspec={s}" else s!"{m}\tspec={s}\tkf={k}"
     | none => s!"{m}\tspec={s}"
 
+
+/-! bitfield cases: `bf a=<positions,|-> b=<positions,|->`
+    output `A=<words> E=<even 1s> O=<odd 1s> ME=<merged even> MO=<merged odd> M=<a.Merge(b) words> blank=<a><b>` -/
+
+def hex16 (n : Nat) : String :=
+  let d := (Nat.toDigits 16 n)
+  String.ofList (List.replicate (16 - d.length) '0' ++ d)
+
+def showWords (w : BF.Words) : String := if w.isEmpty then "-" else ".".intercalate (w.map hex16)
+
+def showList (l : List Nat) : String := if l.isEmpty then "-" else ",".intercalate (l.map toString)
+
+def posList? (s : String) : Option (List Nat) := if s == "-" then some [] else natList? s
+
+def bfCase (pa pb : List Nat) : String :=
+  let a := pa.foldl BF.setBit []
+  let b := pb.foldl BF.setBit []
+  s!"A={showWords a} E={showList (BF.iter1s a 0 1)} O={showList (BF.iter1s a 1 1)} " ++
+  s!"ME={showList (BF.iter1sMerged a b 0 1)} MO={showList (BF.iter1sMerged a b 1 1)} " ++
+  s!"M={showWords (BF.merge a b)} blank={BF.isBlank a}{BF.isBlank b}"
+
 def field? (pre : String) (s : String) : Option String :=
   if s.startsWith pre then some (s.drop pre.length).toString else none
 
@@ -100,6 +122,10 @@ def step (line : String) : String :=
   | ["const", "threshold", n] => match n.toNat? with
     | some n => toString (threshold n)
     | none => "bad-op"
+  | ["bf", fa, fb] =>
+    match (field? "a=" fa).bind posList?, (field? "b=" fb).bind posList? with
+    | some pa, some pb => bfCase pa pb
+    | _, _ => "bad-op"
   | _ =>
     match line.splitOn "|" with
     | [hdr, body] =>
